@@ -1,7 +1,10 @@
 package main
 
 import (
+	"bufio"
 	"fmt"
+	"io"
+	"math"
 	"sort"
 	"strconv"
 	"strings"
@@ -100,6 +103,132 @@ func runLookup(args []string) string {
 	return fmt.Sprintf("found=%d/%d", found, n)
 }
 
+// runConv: decode one pickle (PyDict off), then AsInt64 / AsString / AsBytes on the result.
+func runConv(args []string) string {
+	data := ""
+	if len(args) > 1 {
+		data = unhex(args[1])
+	}
+	dec := ogorek.NewDecoderWithConfig(strings.NewReader(data), &ogorek.DecoderConfig{StrictUnicode: args[0] == "1"})
+	v, err := dec.Decode()
+	if err != nil {
+		return "decode err " + ogorek.VerifErrClass(err)
+	}
+	si, ss, sb := "err", "err", "err"
+	if i, err := ogorek.AsInt64(v); err == nil {
+		si = "ok:" + strconv.FormatInt(i, 10)
+	}
+	if s, err := ogorek.AsString(v); err == nil {
+		ss = "ok:" + hx(s)
+	}
+	if b, err := ogorek.AsBytes(v); err == nil {
+		sb = "ok:" + hx(string(b))
+	}
+	return fmt.Sprintf("v=%s int=%s str=%s bytes=%s", dumpVal(v), si, ss, sb)
+}
+
+// logWriter records every Write call; the failAt-th call (0-based) fails with errInjected.
+type logWriter struct {
+	writes [][]byte
+	failAt int
+	after  int // Write calls made after the failed one
+	failed bool
+}
+
+var errInjected = fmt.Errorf("injected write failure")
+
+func (w *logWriter) Write(b []byte) (int, error) {
+	if w.failed {
+		w.after++
+		return 0, errInjected
+	}
+	w.writes = append(w.writes, append([]byte{}, b...))
+	if w.failAt >= 0 && len(w.writes)-1 == w.failAt {
+		w.failed = true
+		return 0, errInjected
+	}
+	return len(b), nil
+}
+
+// runEnc: enc <proto> <strict> <failat|-> <value tokens>
+func runEnc(args []string) (out string) {
+	proto, _ := strconv.Atoi(args[0])
+	failAt := -1
+	if args[2] != "-" {
+		failAt, _ = strconv.Atoi(args[2])
+	}
+	p := &encParser{parser: parser{toks: args[3:]}, refs: map[uintptr]*ogorek.Ref{}}
+	rv := p.rvalue()
+	var v any
+	if rv.IsValid() {
+		v = rv.Interface()
+	}
+	before := fmt.Sprintf("%#v", v)
+	w := &logWriter{failAt: failAt}
+	var dst io.Writer = w
+	var bw *bufio.Writer
+	if strings.HasPrefix(args[2], "b") {
+		// the destination buffers: same bytes must come out however it chunks them
+		n, _ := strconv.Atoi(args[2][1:])
+		bw = bufio.NewWriterSize(w, n)
+		dst = bw
+		w.failAt = -1
+	}
+	enc := ogorek.NewEncoderWithConfig(dst, &ogorek.EncoderConfig{Protocol: proto, StrictUnicode: args[1] == "1", PersistentRef: p.getref})
+	var err error
+	panicked := func() (msg string) {
+		defer func() {
+			if r := recover(); r != nil {
+				msg = fmt.Sprint(r)
+			}
+		}()
+		err = enc.Encode(v)
+		return ""
+	}()
+	if bw != nil {
+		bw.Flush()
+	}
+	var all []byte
+	for _, b := range w.writes {
+		all = append(all, b...)
+	}
+	mutated := "0"
+	if fmt.Sprintf("%#v", v) != before {
+		mutated = "1"
+	}
+	tail := fmt.Sprintf(" #writes=%d #after=%d #mutated=%s", len(w.writes), w.after, mutated)
+	switch {
+	case panicked != "":
+		return "panic " + strings.ReplaceAll(panicked, " ", "_") + tail
+	case w.failed:
+		same := "0"
+		if err == errInjected {
+			same = "1"
+		}
+		return "writeerr returned=" + same + tail
+	case err != nil:
+		return "err " + ogorek.VerifEncErrClass(err) + " " + hx(string(all)) + tail
+	}
+	return "ok " + hx(string(all)) + tail
+}
+
+// isPrintTable: ranges [lo,hi] of runes >= 128 that strconv.IsPrint accepts.
+func isPrintTable() string {
+	var sb strings.Builder
+	start := -1
+	for r := 128; r <= 0x110000; r++ {
+		ok := r <= 0x10FFFF && strconv.IsPrint(rune(r))
+		if ok && start < 0 {
+			start = r
+		}
+		if !ok && start >= 0 {
+			fmt.Fprintf(&sb, "%d-%d,", start, r-1)
+			start = -1
+		}
+	}
+	return sb.String()
+}
+
 // handleMore: commands beyond decoding.
 func handleMore(f []string) (string, bool) {
 	switch f[0] {
@@ -107,6 +236,14 @@ func handleMore(f []string) (string, bool) {
 		return runDict(f[1:]), true
 	case "lookup":
 		return runLookup(f[1:]), true
+	case "conv":
+		return runConv(f[1:]), true
+	case "enc":
+		return runEnc(f[1:]), true
+	case "fmtg":
+		return "ok " + hx(fmt.Sprintf("%g", math.Float64frombits(hexu64(f[1])))), true
+	case "isprint-table":
+		return isPrintTable(), true
 	}
 	return "", false
 }
